@@ -109,6 +109,10 @@ pub struct RunRecord {
     /// Socket calls made before the tracer reported its end.
     pub calls_total: u64,
     pub source_addr: Option<std::net::IpAddr>,
+    /// Length of the tape record when the world took the tape over (generator draws before).
+    pub world_tape_start: usize,
+    /// Datagrams of the neighbouring tracer that were delivered to this run.
+    pub neighbour_datagrams: usize,
 }
 
 /// Options of a run that are not part of the scenario.
@@ -205,8 +209,40 @@ pub fn run_built(sc: Scenario, built: Result<Tracer, String>, tape: Tape, opts: 
     install_panic_hook();
     let tick_seed = simcore::mix64(u64::from(sc.tracer.initial_seq) ^ (u64::from(sc.net.ecmp_salt) << 20) ^ 0x71c6);
     let t_start = clock::EPOCH_NS + u64::from(sc.net.ecmp_salt % 1000) * 1_000_003;
+    // a neighbouring tracer runs first (its own world), its received traffic is replayed here
+    let stream = match (&built, sc.neighbour) {
+        (Ok(_), Some(n)) if sc.synth.is_none() => neighbour_stream(&sc, n),
+        _ => Vec::new(),
+    };
+    let world_tape_start = tape.record.len();
     let mut world = World::new(sc.clone(), tape);
     world.call_budget = call_budget(&sc);
+    let neighbour_datagrams = stream.len();
+    for (off, bytes, src, responder) in stream {
+        world.counters.add("reach.neighbour_datagram", 1);
+        world.deliver(crate::world::RespRec {
+            id: 0,
+            wire_id: None,
+            class: crate::world::RespClass::Foreign,
+            kind: crate::world::RespKind::Other,
+            code: 0,
+            responder,
+            quoted_tos: None,
+            exts: None,
+            ambiguous_ext: false,
+            rfc4884_len: 0,
+            quoted_udp_csum: None,
+            t_arrive: t_start + off,
+            handed: None,
+            bytes: Some(bytes),
+            src,
+            note: "neighbour-tracer",
+            kept: None,
+            replay_of_wire: None,
+            dgram_len: 0,
+            rewritten: (false, false),
+        });
+    }
     WORLD.with(|w| *w.borrow_mut() = Some(world));
     let rounds: RefCell<Vec<RoundRec>> = RefCell::new(Vec::new());
     let mut final_state = None;
@@ -303,7 +339,42 @@ pub fn run_built(sc: Scenario, built: Result<Tracer, String>, tape: Tape, opts: 
         tape_record,
         calls_total,
         source_addr,
+        world_tape_start,
+        neighbour_datagrams,
     }
+}
+
+/// Run the neighbouring tracer alone over the same simulated network and return what its
+/// receive socket was handed: (arrival offset from its start, datagram, source, responder).
+/// Its decisions come from a tape derived from the scenario, so the stream is a function
+/// of the scenario alone.
+fn neighbour_stream(sc: &Scenario, n: crate::scenario::NeighbourCfg) -> Vec<(u64, Vec<u8>, Option<std::net::SocketAddr>, std::net::IpAddr)> {
+    let mut b = sc.clone();
+    b.neighbour = None;
+    b.record_rx = true;
+    b.alone_equal = false;
+    b.inject = crate::scenario::InjectCfg::default();
+    b.faults.sock_pm = 0;
+    b.faults.addr_in_use_pm = 0;
+    b.faults.scripted.clear();
+    b.mutation = None;
+    b.sniff = false;
+    let id = sc.tracer.trace_id.wrapping_add(n.id_delta);
+    b.tracer.trace_id = if id == 0 { 1 } else { id };
+    if n.other_target {
+        b.tracer.target = crate::scenario::other_target(sc.tracer.v6);
+    }
+    let seed = simcore::mix64(u64::from(sc.tracer.trace_id) ^ (u64::from(sc.tracer.initial_seq) << 16) ^ (u64::from(sc.net.ecmp_salt) << 32) ^ 0x6e65_6967);
+    let rec = run_scenario(b, Tape::from_seed(seed), RunOpts { snapshots: false, clock_log: false });
+    let mut out = Vec::new();
+    for r in &rec.world.resps {
+        if r.handed.is_none() {
+            continue;
+        }
+        let Some(bytes) = r.kept.clone() else { continue };
+        out.push((r.t_arrive.saturating_sub(rec.t_start) + n.start_offset_ns, bytes, r.src, r.responder));
+    }
+    out
 }
 
 /// Synthetic round source: draw `cfg.rounds` rounds from the tape and hand each to the real
